@@ -44,6 +44,10 @@ Check(r) ==
 
 Verdict(r) ==
   IF r.anom # <<>> THEN <<"C19:anomaly." \o r.anom[1]>>
+  ELSE IF r.fn = "dicleanup" THEN
+    (IF r.res # "ok" THEN <<"C19:dicleanup.raised." \o r.res>>
+     ELSE IF DiCleanupOK(r.b[1], r.b[2], r.dn, r.di, r.dt, r.dh, r.rn, r.ri, r.rt, r.rh, r.on, r.oe) THEN <<>>
+     ELSE <<"C19:dicleanup.guarantees">>)
   ELSE IF ~Integrity(FromJ(r.src)) \/ (r.fn = "cleanup" /\ Unspecified(FromJ(r.src), [OpDefaults EXCEPT !.name = "cleanup", !.b3 = r.b[3]]))
     THEN <<"tainted">>
   ELSE LET cl == Check(r)
